@@ -1315,6 +1315,23 @@ class Checker:
                     rep.violation("decompose/zone-id/" + sub, "the destination (remote.hostinfo, RFC 4007 form) of a URI with a zoned IPv6 literal has another zone than the URI: " + what, dict(wit, observed=obs.as_dict(), destination_zone=got, uri_zone=D.host.zone), case)
                     continue
                 rep.violation(pref("iri/" if iri else "", "decompose/" + comp), "Message(uri=...) does not decompose as RFC 7252 section 6.4 says (%s)" % comp, dict(wit, observed=obs.as_dict(), detail=repr(detail)), case)
+            if not violated and iri_host and D.host.kind == "name":
+                # raw non-ASCII text in a host name is an IRI spelling of the percent-encoded UTF-8 octets (RFC 3987 3.1):
+                # whichever Uri-Host the library derives, both spellings of the one name must give the same
+                try:
+                    esc = "".join(c if ord(c) < 0x80 else "".join("%%%02X" % b for b in c.encode("utf-8")) for c in D.host.text)
+                except UnicodeEncodeError:
+                    esc = None
+                at = u.find("://")
+                if esc is not None and at >= 0 and u[at + 3 :].startswith(D.host.text):
+                    u2 = u[: at + 3] + esc + u[at + 3 + len(D.host.text) :]
+                    st2, res2 = self.attempt(u2)
+                    if st2 not in ("escape", "urlerr"):
+                        rep.monitor("iri_host_raw_vs_escaped")
+                        obs2 = Obs(res2)
+                        if obs2.uri_host != obs.uri_host:
+                            rep.violation("iri/decompose/uri-host-of-raw-spelling-differs-from-escaped-spelling", "a host name written with raw non-ASCII characters gives another Uri-Host than the same name with those characters percent-encoded (RFC 7252 6.4 step 5 lower-cases ASCII letters only)", dict(wit, escaped_spelling=u2, uri_host_raw=obs.uri_host, uri_host_escaped=obs2.uri_host), case)
+                            violated = True
             if not violated:
                 violated = self.recompose(u, D, m, obs, case, wit, iri, iri_host)
             outcome = "ok" if not violated else "violated"
